@@ -272,7 +272,7 @@ def journal_cases(shard):
     return [c for j, c in enumerate(cases) if j % n == i]
 
 
-WATCHDOG_S = 8
+WATCHDOG_S = 20
 
 
 def journal_run(sink, case, sub_start, progress):
